@@ -551,21 +551,34 @@ Proof.
   intro Hz. replace z with (Z.of_nat (Z.to_nat z)) at 1 by lia. rewrite <- Nat2Z.inj_div. apply Nat2Z.id.
 Qed.
 
+(* the same with floor division (the source decides completeness of a block with value // max_value) *)
+Lemma div_all_ones (blk : list Z) order : 1 <= order -> Forall is_bit blk -> zlen blk = order ->
+  Z.div (bits2int blk) (2 ^ order - 1) = if all_ones blk then 1 else 0.
+Proof.
+  intros Ho Hb Hl. rewrite <- (quot_all_ones blk order Ho Hb Hl).
+  destruct (bits_bound blk Hb) as [[L U] E]. rewrite Hl in *.
+  assert (P : 2 <= 2 ^ order) by (change 2 with (2 ^ 1) at 1; apply Z.pow_le_mono_r; lia).
+  symmetry. apply Z.quot_div_nonneg; lia.
+Qed.
+
 Lemma ge_royal_road1 b order : 1 <= order -> Forall is_bit b -> bin_royal_road1 b order = spec_bin_royal_road1 b order.
 Proof.
   intros Ho Hb. unfold bin_royal_road1, spec_bin_royal_road1. cbv zeta. f_equal.
   set (w := Z.to_nat order).
   rewrite py_range_to_nat.
   unfold zlen at 1. rewrite to_nat_div by lia. fold w.
-  match goal with |- fold_left _ ?l ?a = _ =>
-    transitivity (fold_left (fun t i => t + (fun i => order * Z.quot (bits2int (py_slice b (Some (i * order)) (Some (i * order + order)) 1)) (2 ^ order - 1)) i) l a);
-    [reflexivity|] end.
+  (* the loop `total += order * completeness(block i)` as a sum, whichever division decides completeness *)
+  match goal with |- fold_left ?F ?l ?a = _ =>
+    rewrite (fold_left_ext F (fun t i => t + (fun i => F 0 i) i)) by (intros t i; cbv beta zeta; lia) end.
   rewrite loop_sum, zsum_over_map. cbn [Z.add]. unfold zsum_over. f_equal. apply map_ext_in.
-  intros j Hj. apply in_seq in Hj.
+  intros j Hj. apply in_seq in Hj. cbv beta zeta.
   replace (Z.of_nat j * order) with (Z.of_nat (j * w)) by (unfold w; lia).
   rewrite block_slice_Z by lia. fold w.
-  rewrite quot_all_ones; [destruct (all_ones _); lia|lia|apply Forall_block; assumption|].
-  unfold zlen. rewrite block_length; [unfold w; lia | lia | unfold w; lia].
+  assert (L : zlen (block b (j * w) w) = order).
+  { unfold zlen. rewrite block_length; [unfold w; lia | lia | unfold w; lia]. }
+  first [ rewrite div_all_ones by (try assumption; apply Forall_block; assumption)
+        | rewrite quot_all_ones by (try assumption; apply Forall_block; assumption) ].
+  destruct (all_ones _); lia.
 Qed.
 
 
